@@ -169,8 +169,31 @@ impl Arithmetic for i128 {
     }
 }
 
+/// An asset list can only take part in arithmetic once all of its amounts are plain numbers (the
+/// conversion into `CanonicalAssets` is infallible and would panic otherwise).
+fn has_plain_amounts(expr: &Expression) -> bool {
+    match expr {
+        Expression::Assets(x) => x.iter().all(|asset| asset.amount.as_number().is_some()),
+        _ => true,
+    }
+}
+
+fn ensure_plain_amounts(op: &str, a: &Expression, b: &Expression) -> Result<(), Error> {
+    if has_plain_amounts(a) && has_plain_amounts(b) {
+        Ok(())
+    } else {
+        Err(Error::InvalidBinaryOp(
+            op.to_string(),
+            format!("{a:?}"),
+            format!("{b:?}"),
+        ))
+    }
+}
+
 impl Arithmetic for Expression {
     fn add(self, other: Expression) -> Result<Expression, Error> {
+        ensure_plain_amounts("add", &self, &other)?;
+
         match self {
             Expression::None => Ok(other),
             Expression::Number(x) => Arithmetic::add(x, other),
@@ -184,6 +207,8 @@ impl Arithmetic for Expression {
     }
 
     fn sub(self, other: Expression) -> Result<Expression, Error> {
+        ensure_plain_amounts("sub", &self, &other)?;
+
         match self {
             Expression::None => Ok(other),
             Expression::Number(x) => Arithmetic::sub(x, other),
@@ -197,6 +222,8 @@ impl Arithmetic for Expression {
     }
 
     fn neg(self) -> Result<Expression, Error> {
+        ensure_plain_amounts("neg", &self, &Expression::None)?;
+
         match self {
             Expression::None => Ok(Expression::None),
             Expression::Number(x) => Arithmetic::neg(x),
@@ -636,7 +663,9 @@ impl Composite for Coerce {
             Self::NoOp(x) => Ok(Self::NoOp(x)),
             Self::IntoAssets(x) => Ok(Self::NoOp(x.into_assets()?)),
             Self::IntoDatum(x) => Ok(Self::NoOp(x.into_datum()?)),
-            Self::IntoScript(x) => todo!(),
+            // there is no script representation to coerce into yet: leave the expression as it
+            // is so that whoever consumes it can refuse it with an error
+            Self::IntoScript(x) => Ok(Self::IntoScript(x)),
         }
     }
 }
